@@ -440,6 +440,7 @@ type FuncContract struct {
 	Held      []string // mutexes held on entry: expressions like "s.mu"
 	Asserts   []*Clause // "assert at call Callee#k: expr"
 	GhostSets []*Clause // ghost updates
+	GhostUpdates []*GhostUpdate
 	File      string
 	Line      int
 	Extern    bool
@@ -479,6 +480,7 @@ type ContractSet struct {
 	Ghosts    []*GhostField
 	LockInvs  []*LockInv
 	Axioms    []*Axiom
+	Sums      []*GhostSum
 }
 
 func newContractSet() *ContractSet {
@@ -487,7 +489,7 @@ func newContractSet() *ContractSet {
 
 var clauseKeywords = map[string]bool{
 	"func": true, "extern": true, "requires": true, "requires_locked": true, "ensures": true, "modifies": true, "nopanic": true,
-	"loop": true, "specfunc": true, "ghost": true, "lockinv": true, "axiom": true, "trusted": true,
+	"loop": true, "specfunc": true, "ghost": true, "ghostsum": true, "ghost_set": true, "lockinv": true, "axiom": true, "trusted": true,
 	"pure": true, "inline": true, "held": true, "assert": true, "package": true, "invariant": true,
 }
 
@@ -655,6 +657,16 @@ func (cs *ContractSet) parseContractText(file, pkgPath string, lines []string, l
 				cur.Modifies = append(cur.Modifies, mi)
 				cur.ModText = append(cur.ModText, part)
 			}
+		case "ghost_set":
+			// ghost_set x.f = expr [if cond]   (applied on return, before deferred calls run)
+			if cur == nil {
+				return fmt.Errorf("%s:%d: ghost_set outside func", file, it.line)
+			}
+			gs, err := parseGhostSet(rest)
+			if err != nil {
+				return fmt.Errorf("%s:%d: %v", file, it.line, err)
+			}
+			cur.GhostUpdates = append(cur.GhostUpdates, gs)
 		case "nopanic":
 			cur.NoPanic = true
 		case "trusted":
@@ -714,6 +726,21 @@ func (cs *ContractSet) parseContractText(file, pkgPath string, lines []string, l
 			cs.LockInvs = append(cs.LockInvs, li)
 			curLock = li
 			counters = map[string]int{}
+		case "ghostsum":
+			// ghostsum NAME over MAPTYPE of EXPR   (EXPR over the map value v and key k)
+			fs := strings.SplitN(rest, " over ", 2)
+			if len(fs) != 2 {
+				return fmt.Errorf("%s:%d: bad ghostsum", file, it.line)
+			}
+			gs := strings.SplitN(fs[1], " of ", 2)
+			if len(gs) != 2 {
+				return fmt.Errorf("%s:%d: bad ghostsum", file, it.line)
+			}
+			e, err := parseExpr(strings.TrimSpace(gs[1]))
+			if err != nil {
+				return fmt.Errorf("%s:%d: %v", file, it.line, err)
+			}
+			cs.Sums = append(cs.Sums, &GhostSum{Name: strings.TrimSpace(fs[0]), MapType: strings.TrimSpace(gs[0]), Expr: e, PkgPath: pkgPath})
 		case "axiom":
 			label, body := splitLabel(rest)
 			e, err := parseExpr(body)
